@@ -58,7 +58,8 @@ class Model:
             self.W *= int(self.noise_w[v].sum())
         for l, _ in self.latents:
             self.W *= int(self.lat_w[l].sum())
-        assert self.W < 2 ** 53, "weight total must stay exactly representable"
+        if not self.W < 2 ** 53:  # (not an assert statement: some shards run under python -O)
+            raise AssertionError("weight total must stay exactly representable")
         self._worlds: dict = {}
         self._joint: dict = {}
         self._marg: dict = {}
@@ -139,7 +140,8 @@ class Model:
             stride *= self.card[v]
         counts = np.bincount(flat, weights=self.weights_flat().astype(np.float64), minlength=stride)
         table = np.rint(counts).astype(np.int64).reshape([self.card[v] for v in self.live])
-        assert int(table.sum()) == self.W
+        if int(table.sum()) != self.W:
+            raise AssertionError("weight total")
         if len(self._joint) > 128:
             self._joint.clear()
             self._marg.clear()
